@@ -126,7 +126,8 @@ pub fn waitpidx(wpid: i32, block: bool) -> types::WaitStatus {
 
 pub fn wait_fg_job(sh: &mut shell::Shell, gid: i32, pids: &[i32]) -> CommandResult {
     let mut cmd_result = CommandResult::new();
-    let mut count_waited = 0;
+    // foreground members that have exited or are currently stopped
+    let mut waited: std::collections::HashSet<i32> = std::collections::HashSet::new();
     let count_child = pids.len();
     if count_child == 0 {
         return cmd_result;
@@ -150,8 +151,14 @@ pub fn wait_fg_job(sh: &mut shell::Shell, gid: i32, pids: &[i32]) -> CommandResu
 
         let pid = ws.get_pid();
         let is_a_fg_child = pids.contains(&pid);
-        if is_a_fg_child && !ws.is_continued() {
-            count_waited += 1;
+        if is_a_fg_child {
+            // a member that stops and later exits counts once; one that is
+            // continued has to be waited for again
+            if ws.is_continued() {
+                waited.remove(&pid);
+            } else {
+                waited.insert(pid);
+            }
         }
 
         if ws.is_exited() {
@@ -189,7 +196,7 @@ pub fn wait_fg_job(sh: &mut shell::Shell, gid: i32, pids: &[i32]) -> CommandResu
             cmd_result.status = status;
         }
 
-        if count_waited >= count_child {
+        if waited.len() >= count_child {
             break;
         }
     }
